@@ -831,6 +831,8 @@ class Interp(object):
                         return self.call_function(fi, [base], {}, node, frame)
                     if fi.is_static:
                         return FuncRef(fi)
+                    if fi.is_classmethod:
+                        return FuncRef(fi, bound=ClassRef(base.cls))
                     return FuncRef(fi, bound=base)
                 # class-level constant
                 for c in self.repo.mro(base.cls):
@@ -849,6 +851,8 @@ class Interp(object):
             if self.repo.has_cls(base.name):
                 fi = self.repo.method(base.name, attr, required=False)
                 if fi is not None:
+                    if fi.is_classmethod:
+                        return FuncRef(fi, bound=base)      # cls is the class the method is reached through
                     return FuncRef(fi)
                 for c in self.repo.mro(base.name):
                     if attr in c.class_consts:
@@ -1253,8 +1257,77 @@ class Interp(object):
 
     def ev_Yield(self, e, frame):
         v = self.ev(e.value, frame) if e.value is not None else None
+        handlers = self.__dict__.get('_yield_handlers')
+        if handlers and handlers[-1] is not None:
+            # the generator is being driven by a `for` loop of the code under analysis: hand the value to that loop's body
+            handlers[-1](v)
+            return None
         self.event('yield', v)
         return None
+
+    @staticmethod
+    def _is_generator_function(fi):
+        cached = getattr(fi, '_is_gen', None)
+        if cached is None:
+            cached = False
+            stack = list(fi.node.body)
+            while stack:
+                n = stack.pop()
+                if isinstance(n, (ast.Yield, ast.YieldFrom)):
+                    cached = True
+                    break
+                for ch in ast.iter_child_nodes(n):
+                    if not isinstance(ch, (ast.FunctionDef, ast.Lambda, ast.ClassDef)):
+                        stack.append(ch)
+            try:
+                fi._is_gen = cached
+            except AttributeError:
+                pass
+        return cached
+
+    def for_over_generator(self, s, frame):
+        """`for x in gen(...)` where gen is a generator function of the repository: producer and consumer are interleaved as at run
+        time - the generator's body runs, and at every `yield` the loop body runs with the yielded value (so what the generator does
+        after a yield happens after the consumer has handled that value).  Returns NOT_HANDLED when the loop is of another kind."""
+        if not isinstance(s.iter, ast.Call):
+            return self.NOT_HANDLED
+        if any(isinstance(a, ast.Starred) for a in s.iter.args) or any(k.arg is None for k in s.iter.keywords):
+            return self.NOT_HANDLED
+        callee = self.ev_callee(s.iter.func, frame)
+        if not (isinstance(callee, FuncRef) and self._is_generator_function(callee.fi) and not any('contextmanager' in d for d in callee.fi.decorators)):
+            return self.NOT_HANDLED
+        text = norm(s.iter.func)
+        args = self.ev_elts(s.iter.args, frame)
+        kwargs = dict((k.arg, self.ev(k.value, frame)) for k in s.iter.keywords)
+        r = self.on_call(text, callee, args, kwargs, s.iter, frame)
+        if r is not self.NOT_HANDLED:
+            return ('value', r)         # a rule scripts this generator: loop over what it hands out
+        handlers = self.__dict__.setdefault('_yield_handlers', [])
+
+        class _Stop(Exception):
+            def __init__(self2, ctrl):
+                self2.ctrl = ctrl
+
+        def handler(v):
+            handlers.append(None)       # yields of the consumer itself are not ours
+            try:
+                self.assign(s.target, v, frame, s)
+                c = self.block(s.body, frame)
+            finally:
+                handlers.pop()
+            if c is not None and c.kind != 'continue':
+                raise _Stop(c)
+        handlers.append(handler)
+        try:
+            a = list(callee.pre_args) + ([callee.bound] if callee.bound is not None else []) + list(args)
+            self.call_function(callee.fi, a, kwargs, s.iter, frame)
+        except _Stop as st:
+            return ('ctrl', None if st.ctrl.kind == 'break' else st.ctrl)
+        finally:
+            handlers.pop()
+        if s.orelse:
+            return ('ctrl', self.block(s.orelse, frame))
+        return ('ctrl', None)
 
     def ev_NamedExpr(self, e, frame):
         v = self.ev(e.value, frame)
@@ -1436,6 +1509,9 @@ class Interp(object):
             return [args[0]] * args[1]
         if qual in ('operator.add', 'operator.sub', 'operator.mul') and len(args) == 2:
             return self.binop({'add': ast.Add, 'sub': ast.Sub, 'mul': ast.Mult}[qual.split('.')[1]], args[0], args[1], node, frame)
+        if qual == 'itertools.compress' and len(args) == 2 and isinstance(args[0], (list, tuple)) and isinstance(args[1], (list, tuple)) and \
+                all(isinstance(x, (bool, int)) or x is None for x in args[1]):
+            return GenList(d for d, sel in zip(args[0], args[1]) if sel)
         if qual == 'operator.index' and len(args) == 1:
             a = args[0]
             if isinstance(a, int):
@@ -2302,7 +2378,10 @@ class Interp(object):
         return c
 
     def st_For(self, s, frame):
-        it = self.ev(s.iter, frame)
+        g = self.for_over_generator(s, frame)
+        if g is not self.NOT_HANDLED and g[0] == 'ctrl':
+            return g[1]
+        it = g[1] if g is not self.NOT_HANDLED else self.ev(s.iter, frame)
         vals = self.on_for(s, it, frame)
         if vals is None and isinstance(it, GenList):
             # a generator is consumed by the loop, item by item: what the body takes with next() is not visited again
